@@ -9,6 +9,7 @@ FUNCS = ['parseSemVer', 'compareSemVer', 'changeLabel', 'hasLatest', 'hasExpired
 REGIONS = ['performSelfUpdate']
 AST_FILTER = FUNCS + REGIONS + ['SemVer', 'UpdateCache', 'kUpdateWindow']
 SHIM = 'upd.h'
+NAMESPACE = 'bloch::update'
 THROWING = {'parseSemVer', 'hasLatest', 'maybePrintNotice', 'checkForUpdatesIfDue', 'performSelfUpdate_gate'}
 # I/O the unit does not look into: calls are routed to contract-only stubs (assumed, listed as such)
 STUBS = {'loadCache': 'upd_stub_loadCache', 'saveCache': 'upd_stub_saveCache', 'emptyCache': 'upd_stub_emptyCache', 'fetchLatestReleaseTag': 'upd_stub_fetchLatestReleaseTag',
